@@ -181,10 +181,11 @@ Theorem C13_ellipse_rows_nth : forall im idxs r,
 Proof. exact ellipse_rows_nth. Qed.
 Print Assumptions C13_ellipse_rows_nth.
 
-(* ... and it returns rows exactly inside the domain "every requested label <= largest label" *)
+(* ... and (round 6: tables of max(indexes) + 1 entries) it returns rows for EVERY request list of positive labels,
+   present or absent, below or above the largest label of the image; an absent label gets the row of no pixels *)
 Theorem C13_ellipse_rows_defined : forall im idxs,
   nonneg_img im -> idxs <> [] -> nzp im <> [] ->
-  (forall l, In l idxs -> 0 < l <= maxl (map p_v (nzp im))) ->
+  (forall l, In l idxs -> 0 < l) ->
   ellipse_moments im idxs = EllRows (ells im idxs).
 Proof. exact ellipse_rows_defined. Qed.
 Print Assumptions C13_ellipse_rows_defined.
@@ -642,9 +643,9 @@ Theorem C13_hull_areas_vec_correct : forall indexes blocks r,
 Proof. exact HullAreaVecC13Proofs.hull_areas_vec_correct. Qed.
 Print Assumptions C13_hull_areas_vec_correct.
 
-(* it raises (IndexError of index_of_label[indexes] = ...) only for a requested label above the largest hull label *)
+(* round 6 (label tables of max(largest hull label, largest requested label) + 1 entries): it never raises, whatever
+   the request list names - labels without any pixel, below or above every label that has a hull row, included *)
 Theorem C13_hull_areas_vec_defined : forall indexes blocks,
-  (forall j, In j indexes -> j <= maxl (map fst (CircleVec.hull_rows indexes blocks))) ->
   HullAreaVecC13.hull_areas_vec indexes blocks <> None.
 Proof. exact HullAreaVecC13Proofs.hull_areas_vec_defined. Qed.
 Print Assumptions C13_hull_areas_vec_defined.
@@ -661,7 +662,7 @@ Print Assumptions C13_hull_areas_vec_independent.
 (* the compaction step as written, hull[counts_per_label[hull[:, 0]] >= 3], is the concatenation of the
    non-degenerate labels' rows (the form the model's non-degenerate stage works on) *)
 Theorem C13_hull_areas_compaction : forall indexes blocks,
-  NoDup indexes -> (forall j, In j indexes -> 0 <= j < maxl (map fst (CircleVec.hull_rows indexes blocks)) + 1) ->
+  NoDup indexes -> (forall j, In j indexes -> 0 <= j) ->
   length indexes = length blocks ->
   let nd := filter (fun lb : Z * list (Z * Z) => 3 <=? CircleVec.zlenv (snd lb)) (combine indexes blocks) in
   HullAreaVecC13.hull_nd_as_written indexes blocks = CircleVec.hull_rows (map fst nd) (map snd nd).
